@@ -43,6 +43,7 @@ type GenVocab struct {
 	NoAppend bool // do not use append
 	NoFailK  bool // do not call failk
 	SelfTail bool // allow self calls in tail position (C09's subject; off by default)
+	Ext      bool // extended vocabulary of the C02/C03 streams: float and char literals, division, concat, builtin-named locals (other importers' models do not have them: leave off)
 }
 
 var IntGrid = []int64{0, 1, 2, 3, -1, -2, 5, 10, math.MaxInt64, -math.MaxInt64, math.MaxInt64 - 1, 1 << 62, 1 << 32, -(1 << 62)}
@@ -127,7 +128,7 @@ func (g *Gen) leaf(t Ty) *Node {
 	case 3:
 		return g.use(Bool(g.R.Bool()))
 	case 4:
-		if !g.Scopey {
+		if !g.Scopey && g.Vocab.Ext {
 			// a float literal (a value like any other: true in tests, element of lists and arrays)
 			return g.use(Flt([]int64{0, 0, 0, 1, 3, -3, 2, 4}[g.R.Intn(8)]))
 		}
